@@ -290,6 +290,16 @@ def gen_case(rnd, kind):
             rs[p1:p1] = [apm.simple(".even"), apm.simple(".even")]
             right = apm.Program([apm.SrcFile("once7.mac", inc_body), apm.SrcFile(f.name, rs)], {}, {}, base.charset)
         elif rnd.random() < 0.3:
+            # a second guarded file whose path differs from the first one's in letter case only: another file, with its own first time
+            other = rnd.choice(["Once7.mac", "ONCE7.MAC", "once7.MAC"])
+            body2 = [apm.simple(".once"), apm.simple(".even"), apm.label("oncelab2"), apm.data(".word", apm.num(rnd.randrange(0x10000)), ("sym", "oncelab2"), apm.num(0o52525))]
+            aux2 = dict(aux)
+            aux2[other] = apm.SrcFile(other, body2)
+            tail_l = [apm.simple(".even"), apm.include(other), apm.include("once7.mac"), apm.include(other), apm.simple(".even")]
+            tail_r = [apm.simple(".even")] + body2[1:] + [apm.simple(".even")]          # (its text written out, once)
+            prog = apm.Program([apm.SrcFile(f.name, left_stmts + tail_l)], aux2, {}, base.charset)
+            right = apm.Program([apm.SrcFile(f.name, right_stmts + tail_r)], aux2, {}, base.charset)
+        elif rnd.random() < 0.3:
             # guarded files that include each other (or themselves): the inclusion met while the file is still being compiled is not the first
             w = [apm.data(".word", apm.num(rnd.randrange(0x10000))) for _ in range(6)]
             aux_l = dict(aux)
